@@ -26,6 +26,8 @@ func init() {
 }
 
 var c17Controls = []Control{
+	{Name: "escaped-character-read-as-one-byte", Rule: "R17h", WantKey: "regexpNext#rune of a pattern byte 1", File: "pattern/pattern.go",
+		Mutate: ctlReplaceAnywhere("\t\tc = sl.next()\n\t\tif c == '\\x00' {\n\t\t\treturn &SyntaxError{msg: `\\ at end of pattern`}\n\t\t}\n", "\t\tif sl.i >= len(sl.s) {\n\t\t\treturn &SyntaxError{msg: `\\ at end of pattern`}\n\t\t}\n\t\tc = rune(sl.s[sl.i])\n\t\tsl.i++\n")},
 	{Name: "escaped-slash-in-a-bracket-not-recorded", Rule: "R17g", WantKey: "regexpNext#bsb.WriteString(regexp.QuoteMeta(string(c)))", File: "pattern/pattern.go",
 		Mutate: ctlReplaceAnywhere("\t\t\t\tdefault:\n\t\t\t\t\tif filenames && c == '/' {\n\t\t\t\t\t\thasSlash = true\n\t\t\t\t\t}\n\t\t\t\t\tbsb.WriteString(regexp.QuoteMeta(string(c)))", "\t\t\t\tdefault:\n\t\t\t\t\tbsb.WriteString(regexp.QuoteMeta(string(c)))")},
 	{Name: "lexer-caches-the-previous-rune", Rule: "R17e", WantKey: "regexpNext#store 1 of the position keeps prev in step", File: "pattern/pattern.go",
@@ -63,6 +65,10 @@ func runC17(p *Prog, r *Result) {
 	}
 	r.Rule("R17g", "every write of pattern text into a bracket expression comes after the text was looked at for a slash (or is of a rune known to be another character): in Filenames mode a bracket never matches a path separator", 4)
 	checkBracketSlashesNoticed(p, r, "R17g")
+	r.Rule("R17h", "no byte of the pattern is promoted to a rune without a test that it is below utf8.RuneSelf (0 instances on the pinned tree, which decodes runes; armed by a control; shared with C18 as R18c)", 0)
+	if n := checkByteWidenedToRune(p, r, "R17h"); n == 0 {
+		r.Notef("R17h: package pattern converts no string byte to a rune on this tree")
+	}
 	r.Rule("R17f", "a string tested for a variable prefix and a variable suffix has the three lengths compared: the two are matched by disjoint parts", 1)
 	checkPrefixSuffixDisjoint(p, r, "R17f")
 }
